@@ -249,6 +249,39 @@ def desugar(d):
                         frf = {"path": "std::ops::FromResidual::from_residual", "full": "<desugared as std::ops::FromResidual>::from_residual", "did": None,
                                "args": [], "name": "from_residual", "trait": "std::ops::FromResidual"}
                         m["blocks"].append({"s": [], "t": {"k": "call", "f": frf, "args": [resid], "dest": dest, "t": target, "fl": ln, "ln": ln}, "c": False})  # BRK
+                # path-precise exits of a try_for_each body: a block that builds the error with from_residual leaves the loop
+                # as an error directly; a block that builds Ok(())/Continue(())/Some(()) continues with the next item.
+                if is_try:
+                    rb_set = set(B + i for i, cb in enumerate(cm["blocks"]) if cb["t"]["k"] == "return")
+                    # blocks that only fall through (drops / gotos, no statements) into the return block count as the return block
+                    grew = True
+                    while grew:
+                        grew = False
+                        for i, cb in enumerate(cm["blocks"]):
+                            if (B + i) in rb_set or any(st.get("r", {}).get("k") != "discr" for st in cb["s"]):
+                                continue
+                            ct = cb["t"]
+                            if ct["k"] in ("goto", "drop") and (ct["t"] + B) in rb_set:
+                                rb_set.add(B + i)
+                                grew = True
+                    for i in range(n):
+                        X = m["blocks"][B + i]
+                        xt = X["t"]
+                        if xt["k"] == "call" and xt["f"].get("path") == "std::ops::FromResidual::from_residual" and xt.get("dest") == RET \
+                                and xt.get("t") in rb_set and len(xt["args"]) == 1:
+                            if thread is not None:
+                                x, cont, brk = thread
+                                X["s"] = X["s"] + [{"k": "assign", "p": x, "r": {"k": "agg", "ops": [xt["args"][0]], "ak": "adt", "path": "std::ops::ControlFlow",
+                                                                                  "did": None, "vi": 1, "vn": "Break", "fields": ["0"], "args": []}, "ln": ln}]
+                                X["t"] = {"k": "goto", "t": brk, "ln": ln}
+                            else:
+                                xt["dest"] = dest
+                                xt["t"] = target
+                        elif xt["k"] in ("goto", "drop") and xt["t"] in rb_set and X["s"]:
+                            last = X["s"][-1]
+                            r = last.get("r", {})
+                            if last.get("p") == RET and r.get("k") == "agg" and r.get("ak") == "adt" and r.get("vn") in ("Ok", "Continue", "Some"):
+                                X["t"] = {"k": "goto", "t": H, "ln": ln}
                 # names of the closure's variables (item name etc.) are kept for messages
                 for v in cm.get("vars", []):
                     m["vars"].append({"n": v["n"], "p": _remap_place(v["p"], L)})
